@@ -4033,11 +4033,15 @@ func (data *Data) checkDDLConflict(e *proto2.MigrateEventInfo) error {
 	if dbi.MarkDeleted {
 		return errno.NewError(errno.DatabaseIsBeingDelete)
 	}
+	// the answer must not depend on map iteration order: every replica reports the
+	// same conflict
 	for rpName := range dbi.RetentionPolicies {
-		rpi := dbi.RetentionPolicies[rpName]
-		if rpi.MarkDeleted {
+		if dbi.RetentionPolicies[rpName].MarkDeleted {
 			return errno.NewError(errno.RpIsBeingDelete)
 		}
+	}
+	for rpName := range dbi.RetentionPolicies {
+		rpi := dbi.RetentionPolicies[rpName]
 		for mstIdx := range rpi.Measurements {
 			if rpi.Measurements[mstIdx].MarkDeleted {
 				return errno.NewError(errno.MstIsBeingDelete)
